@@ -317,10 +317,16 @@ package dnsserver
 //@   modifies elems(buf), stamped[arr(buf)]
 //@   ensures err == nil ==> 12 <= n && n <= len(buf) && stamped[arr(buf)] == n && sess != nil
 
+// A receive buffer that has been handed to a worker is the worker's until the
+// worker puts it back: the acceptor gives a buffer back to the pool only while
+// it has not been handed over (otherwise the next datagram would be read into
+// memory the worker is still decoding).
 //@ func (*ServerDNS).acceptUDPMsg
 //@   property C06
 //@   requires SD(s) && conn != nil
-//@   modifies allelems(byte), stamped
+//@   modifies allelems(byte), stamped, lent
+//@   atcall Submit set lent[bufPtr] = true
+//@   atcall Put assert a-buffer-handed-to-a-worker-is-not-given-back-by-the-acceptor: !lent[arg1]
 
 //@ func (*ServerDNS).acceptUDPMsg$1
 //@   property C06
@@ -340,20 +346,22 @@ package dnsserver
 //@ func (*ServerDNS).getTCPBuffer
 //@   property C06
 //@   requires SD(s) && s.tcpPool != nil && 0 <= length && length <= 65535
-//@   modifies stamped, allcells([]byte), allelems(byte)
+//@   modifies stamped, allcells([]byte), allelems(byte), lent
 //@   ensures bufPtr != nil && len(deref(bufPtr)) == length && off(deref(bufPtr)) == 0
 
 //@ func (*ServerDNS).readTCPMsg
 //@   property C06
 //@   requires SD(s) && s.tcpPool != nil && conn != nil
-//@   modifies stamped, allcells([]byte), allelems(byte), allcells(uint16)
+//@   modifies stamped, allcells([]byte), allelems(byte), allcells(uint16), lent
 //@   ensures own-bytes-only: err == nil ==> bufPtr != nil && off(deref(bufPtr)) == 0 &&
 //@             len(deref(bufPtr)) <= stamped[arr(deref(bufPtr))]
 
 //@ func (*ServerDNS).acceptTCPMsg
 //@   property C06 C18
 //@   requires SD(s) && s.tcpPool != nil && conn != nil && wg != nil && writeMu != nil && msgSema != nil
-//@   modifies stamped, allcells([]byte), allelems(byte), allcells(uint16), holders[msgSema]
+//@   modifies stamped, allcells([]byte), allelems(byte), allcells(uint16), holders[msgSema], lent
+//@   atcall Submit set lent[bufPtr] = true
+//@   atcall Put assert a-buffer-handed-to-a-worker-is-not-given-back-by-the-acceptor: !lent[arg1]
 //@   ensures slot-taken-iff-submitted: holders[msgSema] <= old(holders[msgSema]) + 1
 //@   atcall Submit assert pipeline-slot-held-before-the-query-runs: holders[msgSema] == old(holders[msgSema]) + 1
 
@@ -384,7 +392,7 @@ package dnsserver
 //@   property C06
 //@   requires s.ServerBase != nil && s.ServerBase.metrics != nil && s.reqPool != nil && stream != nil
 //@   requires poolCap(s.reqPool) >= 65535
-//@   modifies stamped, allelems(byte)
+//@   modifies stamped, allelems(byte), lent
 //@   ensures err == nil ==> m != nil
 
 // DoH: the wire message is a freshly allocated slice (request body or decoded
